@@ -62,7 +62,7 @@ func VerifC14_DBPrimitives() {
 	ref := &verifC14DBRef{}
 	peers := [2]*PeerInfo{{id: "a", BroadcastAddress: "ha"}, {id: "b", BroadcastAddress: "hb"}}
 	// --- an arbitrary map, built through the real insertion code ---
-	n := verifrt.Bound("dbKeys", 2, 3)
+	n := verifrt.Bound("dbKeys", 1, 2)
 	for i := 0; i < n; i++ {
 		k := verifC14SymKey("k")
 		sel := verifrt.Choice("fill", 3) // bare key, peer 0, both peers
